@@ -190,7 +190,9 @@ ActStep ==
                  \/ (np[1] = prog[n][1] /\ np[2] = prog[n][2] /\ np[3] >= prog[n][3])
                  \/ Ev.phase = "TERMINATED"   \* a decision may be reported from any round (DECIDE uses round 0)
          stepClauses == {<<"C07_ProgressMonotone", mono>>,
-                         <<"C07_NoInternalError", Ev.errclass \in {"", "latebinding"}>>}
+                         \* the late-binding refusals (foreign base / supplemental data) are the only errors a message delivery may return;
+                         \* delivering a timer (start of the instance included: queued messages are drained there) returns none
+                         <<"C07_NoInternalError", IF Ev.ev = "Receive" THEN Ev.errclass \in {"", "latebinding"} ELSE Ev.errclass = "">>}
          decClauses == IF Ev.dec # Bot THEN DecClauses(n, i, Ev.dec, Ev.decj, InputOf(I1, n, i)) ELSE {}
          nb == Failed(outClauses \cup stepClauses \cup decClauses)
      IN /\ dlv' = [dlv EXCEPT ![n] = d0]
